@@ -22,3 +22,9 @@ for _fn in ['arow_set', 'arow_insert']:
                            encodes=["src/odfdo/row.py:Row (all methods used, incl. repeated accessors)", "src/odfdo/cell.py:Cell.__init__,repeated,_set_repeated,clone,get_value,set_value",
                                     "src/odfdo/element.py:Element.insert,delete,index,clone,_get_element_idx2,elements_repeated_sequence", "src/odfdo/element_cached.py (all)"],
                            stubs=["/verif/shadow/lxml (symdom)"]))
+
+for _fn in ['arow_set_small']:
+    OBLIGATIONS.append(Obl(name=_fn, module="h_arow", func=_fn, shadow=True, timeout=600, replay="r_h_arow:" + _fn, weight=130,
+                           bounds="real Row of two cell-runs with repeats in 1..2, positions <= 4, inserted repeat <= 2, probe <= 6",
+                           encodes=["src/odfdo/row.py:Row", "src/odfdo/cell.py:Cell.repeated,_set_repeated,clone", "src/odfdo/element_cached.py (all)"],
+                           stubs=["/verif/shadow/lxml (symdom)"]))
